@@ -83,6 +83,8 @@ type Explorer struct {
 	HostStringHook func(in *Interp, s string) Value
 	InterpretPkgs  []string // extra package path prefixes allowed for interpretation
 	EnvMax int
+	MaxSamples int
+	samplesPending int
 	Skeletons map[string]string
 	FallbackQueries, FallbackDecided int
 	TightenAbove int
@@ -131,7 +133,7 @@ type Explorer struct {
 
 func NewExplorer(p *Program, harness string) *Explorer {
 	ex := &Explorer{P: p, Harness: harness, Stubs: Stubs{}, Known: map[string]bool{}, Workers: 8, SolverKind: "z3", TimeoutMS: 30000,
-		MaxDecisions: 400, MaxBlockVisits: 100000, MaxSteps: 30000000, MaxSplit: 5, MapOrderMax: 3, EnvMax: 12, TightenAbove: 12, ByteLo: 0, ByteHi: 127, BufMaxLen: 1<<31 - 1, SampleEvery: 1, MaxViolations: 8,
+		MaxDecisions: 400, MaxBlockVisits: 100000, MaxSteps: 30000000, MaxSplit: 5, MapOrderMax: 3, EnvMax: 12, MaxSamples: 24, TightenAbove: 12, ByteLo: 0, ByteHi: 127, BufMaxLen: 1<<31 - 1, SampleEvery: 1, MaxViolations: 8,
 		AssertsReached: map[string]int{}, KnownHits: map[string][]Violation{}, FuncsEncoded: map[string]int{}, HostCalls: map[string]int{},
 		StubsUsed: map[string]bool{}, LazyGlobals: map[string]bool{}, GlobalWrites: map[string]int{}}
 	ex.cond = sync.NewCond(&ex.mu)
@@ -336,6 +338,7 @@ func (in *Interp) beginPath(trace []int) {
 	in.astBack = nil
 	in.astFwd = nil
 	in.l1 = nil
+	in.posOverride = nil
 	in.reached = nil
 	in.byteAssumed = map[int]bool{}
 	in.Sol.ClearErr()
@@ -391,7 +394,16 @@ func (in *Interp) runPath(fn *ssa.Function, trace []int) {
 		}
 	}
 	var sample *Sample
-	if endKind == "ok" && in.asserts > 0 {
+	ex.mu.Lock()
+	wantSample := len(ex.Samples)+ex.samplesPending < ex.MaxSamples && (ex.Paths%ex.SampleEvery == 0)
+	if wantSample {
+		ex.samplesPending++
+	}
+	ex.mu.Unlock()
+	if wantSample {
+		defer func() { ex.mu.Lock(); ex.samplesPending--; ex.mu.Unlock() }()
+	}
+	if endKind == "ok" && in.asserts > 0 && wantSample {
 		// draw a model of this path as a sample / selftest vector
 		if in.Sol.Check() == sym.RSat {
 			if m, obs, err := in.extractModel(); err == nil {
@@ -434,7 +446,7 @@ func (in *Interp) runPath(fn *ssa.Function, trace []int) {
 	case "inconclusive":
 		ex.Inconclusive = append(ex.Inconclusive, fmt.Sprintf("%s [trace %v]", endMsg, in.taken))
 	}
-	if sample != nil && len(ex.Samples) < 40 {
+	if sample != nil && len(ex.Samples) < ex.MaxSamples {
 		ex.Samples = append(ex.Samples, *sample)
 	}
 	if in.unknownFeas > 0 && endKind == "ok" {
